@@ -143,3 +143,11 @@ verif_harness! { c01_k1_keeper_supersede, 6, {
     kani::cover!(true, "end reached");
     std::mem::forget((got, r2, keeper));
 } }
+
+// native replay of counterexamples: bin/check writes the unit test Kani generated (`--concrete-playback=print`) into the
+// included file and runs `cargo kani playback`; the file is empty otherwise.
+#[allow(unused_imports, dead_code)]
+mod playback {
+    use super::*;
+    include!("/verif/harness/playback/foyer-storage/keeper__verif_kani.rs");
+}
